@@ -339,12 +339,36 @@ def check_grid(arg, versions, part):
             part.count('grid_responses')
             probs = envelope_problems(resp, tuple(version), True)
             part.counters.setdefault('_out', set()).add(('grid:' + label.split('|')[0], not probs))
+            for key, what in tag_version_problems(resp, version):
+                part.violation("%s|grid:%s" % (key, label.split('|')[0]),
+                               "response to '%s' on %s under KMIP %d.%d %s" % (
+                                   label, tlabel, version[0], version[1], what),
+                               {'grid': [kind, list(a)], 'probe': label, 'version': list(version)})
             for key, what in probs:
                 part.violation("envelope|%s|grid:%s" % (key, label.split('|')[0]),
                                "response to '%s' on %s under KMIP %d.%d: %s" % (
                                    label, tlabel, version[0], version[1], what),
                                {'grid': [kind, list(a)], 'probe': label, 'version': list(version)})
     part.sample({'grid_target': tlabel, 'probes': len(plist)})
+
+
+def tag_version_problems(resp, version):
+    """(key, what) for every item of the response whose tag the response's KMIP version does not
+    define (tag ranges per version and the retired tags: mc/ref/versions.py)."""
+    from mc.ref import versions as V
+    try:
+        tree = ttlv.parse(bytes(resp), strict=False)
+    except ttlv.TTLVError:
+        return []       # reported by the envelope oracle
+    out = []
+    for t in sorted(set(node[0] for path, node in ttlv.walk(tree))):
+        first, last = V.tag_first(t), V.TAG_LAST.get(t)
+        if (first and tuple(version) < first) or (last and tuple(version) > last):
+            early = bool(first and tuple(version) < first)
+            out.append(("tag-not-in-version|%06x" % t,
+                        "carries tag %06x (%s), defined %s KMIP %d.%d" % (
+                            t, V.tagname(t), 'from' if early else 'until', *(first if early else last))))
+    return out
 
 
 def _judge(resp, version, decodable, label, part, auth=False):
@@ -357,6 +381,11 @@ def _judge(resp, version, decodable, label, part, auth=False):
         part.violation("envelope|%s|%s" % (key, _lclass(label)),
                        "response to '%s' under KMIP %d.%d: %s" % (label, version[0], version[1], what),
                        {'history': label, 'version': list(version)})
+    if decodable and not auth:
+        for key, what in tag_version_problems(resp, version):
+            part.violation("%s|%s" % (key, _lclass(label)),
+                           "response to '%s' under KMIP %d.%d %s" % (label, version[0], version[1], what),
+                           {'history': label, 'version': list(version)})
 
 
 def _lclass(label):
